@@ -47,7 +47,7 @@ func VerifC12Programs() {
 		return ""
 	}
 	var with, without string
-	switch nd.Choose("case", 0, 5) {
+	switch nd.Choose("case", 0, 7) {
 	case 0: // glob after both objects
 		with = n1 + "\n" + n2 + "\n" + pat + ".label: G\n"
 		without = n1 + "\n" + n2 + "\n" + exp(n1, m1, "G") + exp(n2, m2, "G")
@@ -69,6 +69,18 @@ func VerifC12Programs() {
 		}
 		with = n1 + "." + n2 + "\n**.label: G\n"
 		without = n1 + "." + n2 + "\n" + n1 + ".label: G\n" + n1 + "." + n2 + ".label: G\n"
+	case 6: // the same glob written in an enclosing scope and inside a container: both apply to later targets of their scope
+		if kind != 0 {
+			nd.Assume(false)
+		}
+		with = "*.label: G\n" + n1 + ": {\n " + n2 + "\n *.label: G\n z\n y -> w\n}\nq\n"
+		without = n1 + ": {\n " + n2 + "\n z\n y -> w\n}\nq\n" + n1 + ".label: G\n" + n1 + "." + n2 + ".label: G\n" + n1 + ".z.label: G\n" + n1 + ".y.label: G\n" + n1 + ".w.label: G\nq.label: G\n"
+	case 7: // a glob inside a container does not reach outside, and an outer glob does not reach inside
+		if kind != 0 {
+			nd.Assume(false)
+		}
+		with = n1 + ": {\n *.label: G\n " + n2 + "\n}\nq\n*.shape: circle\n"
+		without = n1 + ": {\n " + n2 + ": G\n}\nq\n" + n1 + ".shape: circle\nq.shape: circle\n"
 	}
 	vSame(with, without, nil, "glob expansion")
 }
